@@ -225,6 +225,11 @@ class ID3(ID3Tags, mutagen.Metadata):
         new_padding = info._get_padding(pad_func)
         if new_padding < 0:
             raise error("invalid padding")
+        # the size field of the tag header holds 28 bits
+        max_size = 2 ** 28 - 1
+        if len(framedata) > max_size:
+            raise error("tag too large")
+        new_padding = min(new_padding, max_size - len(framedata))
         new_size = needed + new_padding
 
         new_framesize = BitPaddedInt.to_str(new_size - 10, width=4)
